@@ -583,3 +583,8 @@ class C14(Check):
             outs, resp = run_unit(ops)
             res['observed'] = dict(outcomes=outs, status=resp.status_code, headerlist=safe_headerlist(resp))
         return res
+
+
+# the composed stream (one real application, one request, against App.serve of Model/App.lean)
+from harness import applib as _applib  # noqa: E402
+_applib.install(C14, quick=(250, 100), thorough=(8000, 2500))
